@@ -7,6 +7,13 @@
 
 namespace Patch {
 
+// A line which ended in a carriage return and a newline in the patch ends in one here as well,
+// as otherwise what is written would be a different line to a program which reads it.
+static const char* terminator_of(const Line& line)
+{
+    return line.newline == NewLine::CRLF ? "\r\n" : "\n";
+}
+
 void write_hunk_as_unified(const Hunk& hunk, File& out)
 {
     // Write hunk range
@@ -20,7 +27,7 @@ void write_hunk_as_unified(const Hunk& hunk, File& out)
 
     // Then body
     for (const auto& patch_line : hunk.lines) {
-        out << patch_line.operation << patch_line.line.content << '\n';
+        out << patch_line.operation << patch_line.line.content << terminator_of(patch_line.line);
 
         if (patch_line.line.newline == NewLine::None)
             out << "\\ No newline at end of file\n";
@@ -38,7 +45,7 @@ static void write_hunk_as_context(const std::vector<PatchLine>& old_lines, const
 
     if (!old_lines.empty()) {
         for (const auto& line : old_lines)
-            out << line.operation << ' ' << line.line.content << '\n';
+            out << line.operation << ' ' << line.line.content << terminator_of(line.line);
 
         if (old_lines.back().line.newline == NewLine::None)
             out << "\\ No newline at end of file\n";
@@ -51,7 +58,7 @@ static void write_hunk_as_context(const std::vector<PatchLine>& old_lines, const
 
     if (!new_lines.empty()) {
         for (const auto& line : new_lines)
-            out << line.operation << ' ' << line.line.content << '\n';
+            out << line.operation << ' ' << line.line.content << terminator_of(line.line);
 
         if (new_lines.back().line.newline == NewLine::None)
             out << "\\ No newline at end of file\n";
